@@ -97,6 +97,44 @@ add("C11",
     "one-component variations. Exploration only.",
     "integer components exact; decimal components within 1 us / 1e-12 relative")
 
+add("C07",
+    "Hypothesis-generated (form, values, parser configuration) triples "
+    "rendered by an own encoder from a hand-copied form table; oracle = the "
+    "generated field values + dump_as_parsed round trip + refusal expectations",
+    "Every documented date x time x zone form (complete, reduced, expanded, "
+    "decimals of 1-9 digits with , or ., 24:00) and every truncated form is "
+    "rendered from generated valid values and parsed under generated parser "
+    "configurations (expanded digits 0-4, allow_only_basic, assumed zone, "
+    "default-to-unknown, faked local zone); fields, defaults, resolved zone "
+    "and dump_as_parsed text are compared with what was spelled; "
+    "extended-only strings under allow_only_basic and basic/extended mixtures "
+    "must raise ISO8601SyntaxError. Per-form hit counts are reported. "
+    "Exploration only.",
+    "trusts the hand-copied tables and encoder in vlib/forms.py; negative "
+    "zero (year or offset) not generated")
+add("C08",
+    "Hypothesis-generated points and dump formats; round-trip oracle + "
+    "instant equality through the reference model",
+    "str -> parse must restore representation, offset and every field, "
+    "compare equal, hash equal and be a str fixpoint, for expanded digits "
+    "0-3, all representations, decimal forms, 24:00 and every offset; custom "
+    "complete formats from a grammar (via the dumper and via dump_format) "
+    "must parse back to the same instant. Exploration only.",
+    "trusts vlib/refcal.py; <= 6 decimal digits")
+add("C09",
+    "exhaustive enumeration of field tuples around the legal ranges + "
+    "Hypothesis mutation/splice fuzzing of the three parsers with a "
+    "type/validity/termination oracle",
+    "Acceptance is decided exhaustively on boxes around every legal range for "
+    "each year type and mode spelling through constructors and text "
+    "notations (accepted <=> real date-time per the reference calendar); "
+    "robustness by mutated/spliced/arbitrary-unicode text through the time "
+    "point, duration and recurrence parsers under generated configurations: "
+    "valid object or ValueError subclass, under a watchdog. Exhaustive on the "
+    "boxes, sampled on text.",
+    "trusts vlib/refcal.py; recurrence inputs with an estimated walk above "
+    "2e7 days are not executed (legitimately expensive)")
+
 NOT_YET = {}
 
 
